@@ -2,9 +2,9 @@ package main
 
 import (
 	"fmt"
-	"sync"
 	"runtime"
 	"strings"
+	"sync"
 
 	"github.com/oxia-db/oxia/proto"
 	"github.com/oxia-db/oxia/server"
